@@ -300,6 +300,23 @@ func byteClass(b []byte, i int) string {
 	return "control-char"
 }
 
+// lineKind names the kind of header line of x that holds offset i.
+func lineKind(x []byte, i int) string {
+	if i > len(x) {
+		i = len(x)
+	}
+	start := bytes.LastIndexByte(x[:i], '\n') + 1
+	switch {
+	case start == 0:
+		return "intro line"
+	case bytes.HasPrefix(x[start:], []byte("---")):
+		return "closing line"
+	case bytes.HasPrefix(x[start:], []byte("->")):
+		return "stanza opening line"
+	}
+	return "body line"
+}
+
 func firstDiff(a, b []byte) int {
 	n := len(a)
 	if len(b) < n {
@@ -399,7 +416,7 @@ func (o *oracle) parse(st *stats, x []byte, rd rdr, rng *rand.Rand) (accepted bo
 	}
 	if !bytes.HasPrefix(x, m) {
 		i := firstDiff(x, m)
-		key := fmt.Sprintf("reserialised-header-differs:input %s where canonical form has %s", byteClass(x, i), byteClass(m, i))
+		key := fmt.Sprintf("reserialised-header-differs:%s: input %s where canonical form has %s", lineKind(x, i), byteClass(x, i), byteClass(m, i))
 		ex["marshalled"] = fmt.Sprintf("%+q", m)
 		ex["first_difference_at"] = i
 		o.c.add(key, x, ex, func() string {
